@@ -292,6 +292,25 @@ def impl_step(ds, line: str, holder: dict) -> str:
     if op == "a2d":
         x = np.array([float(Fraction(t)) for t in toks[1].split(",")])
         d = ds.convert_array_to_dict(x)
+        # a batch of design vectors (n_samples x dimension) is converted row-wise, and back without loss:
+        # the rows of the batch conversion are the conversions of the rows
+        if x.size:
+            rows = [x, x[::-1] * 2.0 + 1.0, x * 0.5]
+            batch = np.vstack(rows)
+            db = ds.convert_array_to_dict(batch)
+            for n in ds.variable_names:
+                size = ds.get_size(n)
+                if np.shape(db[n]) != (len(rows), size):
+                    msg = f"convert_array_to_dict of a {batch.shape} batch gives {n} the shape {np.shape(db[n])}, expected {(len(rows), size)}"
+                    raise AssertionError(msg)
+                for r, row in enumerate(rows):
+                    if not np.array_equal(db[n][r], ds.convert_array_to_dict(row)[n]):
+                        msg = f"row {r} of the batch conversion of {n} differs from the conversion of that row"
+                        raise AssertionError(msg)
+            back = ds.convert_dict_to_array(db)
+            if np.shape(back) != batch.shape or not np.array_equal(back, batch):
+                msg = "convert_dict_to_array(convert_array_to_dict(batch)) is not the batch"
+                raise AssertionError(msg)
         return ";".join(f"{n}={flist(d[n])}" for n in ds.variable_names) or "[]"
     if op == "d2a":
         d = {}
@@ -678,6 +697,20 @@ def _spec_ok(sh, spec, taken) -> bool:
     return n not in taken and _bounds_ok(is_int, lb, ub) and (val is None or _inside(is_int, lb, ub, val))
 
 
+def is_rejected_add(sh: Shadow, line: str) -> bool:
+    """An `add_variable` that the code must refuse only because the given current value is outside the bounds (or not
+    an integer for an integer variable). Such a call is part of the histories the property quantifies over: the caller
+    catches the ValueError and goes on using the design space, which must be what it was before the call."""
+    toks = line.split()
+    if toks[0] != "add" or len(toks) != 2:
+        return False
+    try:
+        n, is_int, lb, ub, val = parse_varspec(toks[1])
+    except Exception:  # noqa: BLE001
+        return False
+    return n not in sh.names() and _bounds_ok(is_int, lb, ub) and val is not None and len(val) == len(lb) and not _inside(is_int, lb, ub, val)
+
+
 def valid_line(sh: Shadow, line: str) -> bool:
     """Is the operation inside the property's quantifier in the current (shadow) state?"""
     toks = line.split()
@@ -685,7 +718,7 @@ def valid_line(sh: Shadow, line: str) -> bool:
     names = sh.names()
     try:
         if op == "add":
-            return len(toks) == 2 and _spec_ok(sh, toks[1], names)
+            return len(toks) == 2 and (_spec_ok(sh, toks[1], names) or is_rejected_add(sh, line))
         if op == "remove":
             return toks[1] in names
         if op == "filter":
@@ -753,6 +786,8 @@ def apply_shadow(sh: Shadow, line: str) -> None:
     toks = line.split()
     op = toks[0]
     if op == "add":
+        if is_rejected_add(sh, line):
+            return  # refused by the code: the design space is unchanged
         sh.vars.append(SVar(*parse_varspec(toks[1])))
     elif op == "remove":
         sh.vars = [v for v in sh.vars if v.name != toks[1]]
@@ -819,6 +854,15 @@ def gen_history(rng: common.Rng, n_ops: int) -> list[str]:
         if not names or r < 0.2:
             v = gen_var(rng, sh)
             if v is not None:
+                if rng.chance(0.12) and any(b is not None for b in list(v.lb) + list(v.ub)):
+                    # a refused add: one component of the current value outside its bounds
+                    val = list(v.value) if v.value is not None else gen_value_in(rng, v.lb, v.ub, v.is_int)
+                    ks = [k for k in range(len(val)) if v.lb[k] is not None or v.ub[k] is not None]
+                    k = rng.pick(ks)
+                    val[k] = (v.ub[k] + 1) if v.ub[k] is not None else (v.lb[k] - 1)
+                    bad_line = "add " + varspec(v.name, v.is_int, v.lb, v.ub, val)
+                    if is_rejected_add(sh, bad_line):
+                        lines.append(bad_line)
                 emit("add " + varspec(v.name, v.is_int, v.lb, v.ub, v.value))
         elif r < 0.26 and len(names) > 1:
             emit(f"remove {rng.pick(names)}")
@@ -944,12 +988,26 @@ def run_history(lines: list[str], scalar_style: bool = False, use_oracle: bool =
             # malformed w.r.t. the current state (only happens in shrunk / neighbour histories):
             # outside the property's quantifier, the history ends here without a verdict
             return answers, failures
+        rejected = use_oracle and is_rejected_add(sh, line)
         try:
             ans = impl_step(ds, line, holder)
         except Exception as e:  # noqa: BLE001
             ans = "X:" + common.exc_class(e)
             holder["last_exc"] = common.short_tb(e)
         answers.append(ans)
+        if rejected:
+            # the call must be refused and must leave every view as it was
+            if not ans.startswith("E"):
+                failures.append((i, "add-out-of-bounds-value-accepted", f"`{line}` was not refused: {ans[:120]}"))
+                break
+            try:
+                bad = oracle_view(ds, sh, line, impl_step(ds, "view", holder), holder)
+            except Exception as e:  # noqa: BLE001
+                bad = [("rejected-add-view-raises", f"view after the refused `{line}` raised {common.exc_class(e)}")]
+            if bad:
+                failures.append((i, "rejected-add:" + bad[0][0], f"after the refused `{line}`: {bad[0][1]}"))
+                break
+            continue
         mutating = op not in ("view", "toscalar", "probe", "member", "project", "a2d", "d2a", "sub")
         if not use_oracle:
             if ans.startswith(("E", "X:")):
